@@ -187,7 +187,7 @@ def decimal_arg(
 
         try:
             return Decimal(val)
-        except ValueError as err:
+        except (ValueError, ArithmeticError) as err:
             if default is not None:
                 return default
             raise FilterArgumentError(
@@ -212,6 +212,10 @@ def math_filter(_filter: FilterT) -> FilterT:
         try:
             return _filter(val, *args, **kwargs)
         except TypeError as err:
+            raise FilterArgumentError(err, token=None) from err
+        except (ArithmeticError, ValueError) as err:
+            # Infinity, NaN and numbers too big for a float have no integer
+            # value and no exact decimal arithmetic.
             raise FilterArgumentError(err, token=None) from err
 
     return wrapper
